@@ -119,11 +119,13 @@ RUNNER_HEAD = r'''
 #include <unistd.h>
 #include <sys/mman.h>
 #include <sys/wait.h>
+#include <ucontext.h>
 #include "%(cfile)s"
 
 /* per-context platform state: two independent instances (C17 runs two contexts interleaved) */
 struct plat {
 	struct %(sctx)s sctx_;
+	unsigned char guard_[2048];   /* footprint canary: a call on this context must not write past the context structure */
 	uint64_t clk_; uint64_t incs_[4096]; unsigned nincs_, iinc_;
 	int fulls_[4096]; unsigned nfulls_, ifull_;
 	unsigned toggles_[4096][2]; unsigned ntoggles_;
@@ -148,6 +150,10 @@ static void oprintf(const char *fmt, ...) {
 	if (r > 0) on += (size_t) r;
 }
 static void on_segv(int sig) { (void) sig; oprintf("oob\n"); oflush(); _exit(0); }
+/* store sampling (C16): in watch mode the data pages of the packet buffer are read-only; every store instruction
+   that hits them faults, the handler logs the byte offset with the in-tracing-section flag as it reads at that
+   instant, unprotects the pages and single-steps the instruction (EFLAGS.TF), after which they are protected again */
+static int watch; static uint8_t *w_lo; static size_t w_len;
 static void on_abrt(int sig) { (void) sig; oprintf("assert\n"); oflush(); _exit(0); }
 
 /* arena for argument data */
@@ -170,8 +176,9 @@ static uint8_t *alloc_buf(size_t n) {
 	size_t pg = 4096, data = ((n + pg - 1) / pg + 1) * pg;
 	uint8_t *m = (uint8_t *) mmap(NULL, data + 2 * pg, PROT_NONE, MAP_PRIVATE | MAP_ANONYMOUS, -1, 0);
 	if (m == MAP_FAILED) { oprintf("mmap-failed\n"); oflush(); _exit(3); }
-	mprotect(m + pg, data, PROT_READ | PROT_WRITE);
+	mprotect(m + pg, data, watch ? PROT_READ : (PROT_READ | PROT_WRITE));
 	cur_buf = m + pg + data - n; cur_size = n;
+	w_lo = m + pg; w_len = data;
 	return cur_buf;
 }
 
@@ -233,6 +240,23 @@ static void cb_close(void *data) {
 	for (i = 0; i < nsetbufs; i++) if (setbufs[i][0] == k) { uint8_t *b = alloc_buf(setbufs[i][1]); %(p)spacket_set_buf(CTX, b, (uint32_t) setbufs[i][1]); break; }
 	oprintf("cx close f=%%d\n", %(p)sis_in_tracing_section(CTX));
 }
+static void on_segv_watch(int sig, siginfo_t *si, void *uc_) {
+	ucontext_t *uc = (ucontext_t *) uc_; uint8_t *a = (uint8_t *) si->si_addr;
+	(void) sig;
+	if (watch && w_lo && a >= w_lo && a < w_lo + w_len) {
+		if (a < cur_buf) { oprintf("oob\n"); oflush(); _exit(0); }
+		oprintf("st %%u f=%%d o=%%d\n", (unsigned) (a - cur_buf), (int) CTX->in_tracing_section, (int) CTX->packet_is_open);
+		mprotect(w_lo, w_len, PROT_READ | PROT_WRITE);
+		uc->uc_mcontext.gregs[REG_EFL] |= 0x100;
+		return;
+	}
+	oprintf("oob\n"); oflush(); _exit(0);
+}
+static void on_trap(int sig, siginfo_t *si, void *uc_) {
+	ucontext_t *uc = (ucontext_t *) uc_; (void) sig; (void) si;
+	uc->uc_mcontext.gregs[REG_EFL] &= ~(greg_t) 0x100;
+	if (watch && w_lo) mprotect(w_lo, w_len, PROT_READ);
+}
 static void ret(const char *api) {
 	oprintf("ret %%s at=%%u ps=%%u full=%%d empty=%%d disc=%%u seq=%%u open=%%d f=%%d en=%%d bs=%%u\n", api,
 		(unsigned) CTX->at, (unsigned) %(p)spacket_size(CTX), %(p)spacket_is_full(CTX), %(p)spacket_is_empty(CTX),
@@ -240,12 +264,19 @@ static void ret(const char *api) {
 		%(p)spacket_is_open(CTX), %(p)sis_in_tracing_section(CTX), %(p)sis_tracing_enabled(CTX),
 		(unsigned) %(p)spacket_buf_size(CTX));
 	if (%(p)spacket_events_discarded(CTX) != %(p)sdiscarded_event_records_count(CTX)) oprintf("accessor-mismatch\n");
+	{ unsigned gi; for (gi = 0; gi < sizeof(P->guard_); gi++) if (P->guard_[gi] != 0x5c) { oprintf("ctx-overrun +%%u\n", gi); P->guard_[gi] = 0x5c; break; } }
 }
 static unsigned parse_list(char *s, uint64_t *out, unsigned max) { unsigned n, i; lp = s; n = (unsigned) next_num(); for (i = 0; i < n && i < max; i++) out[i] = next_num(); return i; }
 
 static void run_history(char **lines, unsigned nl) {
 	unsigned li; struct %(p)splatform_callbacks cbs; uint64_t tmp[8192]; unsigned n, i;
 	signal(SIGSEGV, on_segv); signal(SIGBUS, on_segv); signal(SIGABRT, on_abrt);
+	if (nl && lines[0][0] == 'W') {
+		struct sigaction sa; memset(&sa, 0, sizeof(sa)); sa.sa_flags = SA_SIGINFO; sigemptyset(&sa.sa_mask);
+		sa.sa_sigaction = on_segv_watch; sigaction(SIGSEGV, &sa, NULL);
+		sa.sa_sigaction = on_trap; sigaction(SIGTRAP, &sa, NULL);
+		watch = 1;
+	}
 	memset(&cbs, 0, sizeof(cbs));
 	cbs.is_backend_full = cb_full; cbs.open_packet = cb_open; cbs.close_packet = cb_close;
 %(setclocks)s
@@ -254,7 +285,15 @@ static void run_history(char **lines, unsigned nl) {
 		if (l[0] == 'M') { multi = 1; continue; }
 		if (multi) { P = &PL[l[0] - '0']; l += 2; }
 		switch (l[0]) {
-		case 'H': lp = l + 1; n = (unsigned) next_num(); %(p)sinit(&sctx, alloc_buf(n), (uint32_t) n, cbs, P); break;
+		case 'H': lp = l + 1; n = (unsigned) next_num();
+			/* the context memory is not zero when the platform hands it over (stack, malloc): everything barectf_init is
+			   to initialise must be initialised by it; the members it leaves alone by design (content size, content
+			   offset, saved offsets, last clock sample: written by the first opening / tracing call before they are read
+			   on any documented call order) get the value the Lean model gives them */
+			memset(&sctx, 0xa5, sizeof(sctx)); memset(P->guard_, 0x5c, sizeof(P->guard_));
+			%(p)sinit(&sctx, alloc_buf(n), (uint32_t) n, cbs, P);
+			CTX->off_content = 0; CTX->content_size = 0;%(resetts)s
+			break;
 		case 'I': nincs = parse_list(l + 1, incs, 4096); break;
 		case 'F': n = parse_list(l + 1, tmp, 4096); for (i = 0; i < n; i++) fulls[i] = (int) tmp[i]; nfulls = n; break;
 		case 'T': n = parse_list(l + 1, tmp, 8192); for (i = 0; i + 1 < n; i += 2) { toggles[i/2][0] = (unsigned) tmp[i]; toggles[i/2][1] = (unsigned) tmp[i+1]; } ntoggles = n / 2; break;
@@ -341,7 +380,8 @@ def build_runner(cfg, ir, dst_name, workdir, extra_cflags=(), tag='runner'):
 }}''')
         setclocks.append(f'\tcbs.{name}_clock_get_value = cb_clock_{name};')
     subst = {'cfile': f'{fp}.c', 'sctx': f'{p}{dst_name}_ctx', 'p': p, 'dst': dst_name,
-             'setclocks': '\n'.join(setclocks)}
+             'setclocks': '\n'.join(setclocks),
+             'resetts': ' sctx.cur_last_event_ts = 0;' if d['clock'] else ''}
     src = (RUNNER_HEAD % subst) + '\n'.join(clk_code) + '\n' + '\n'.join(g.lines) + '\n' + (RUNNER_TAIL % subst)
     with open(os.path.join(workdir, f'{tag}.c'), 'w') as f:
         f.write(src)
@@ -395,7 +435,7 @@ def script_text(ir, dst_name, h):
     """history (JSON form sent to Lean) → runner script"""
     d = [x for x in ir['dsts'] if x['name'] == dst_name][0]
     pl = h['plat']
-    out = [f'H {h["buf"]}']
+    out = (['W'] if h.get('watch') else []) + [f'H {h["buf"]}']
     out.append('I ' + ' '.join(map(str, [len(pl['incs'])] + pl['incs'])))
     out.append('F ' + ' '.join(map(str, [len(pl['full'])] + pl['full'])))
     flat = [x for t in pl['toggles'] for x in t]
